@@ -402,7 +402,7 @@ func genSmallCmd(out string, seed uint64, thorough bool) error {
 			if fi == len(final.files)-1 {
 				sweep[len(offs)-1] = true
 			}
-			if len(offs) > 0 && (thorough || r.chance(1, 2)) {
+			if len(offs) > 0 && (thorough || r.chance(1, 4)) {
 				sweep[r.intn(len(offs))] = true
 			}
 			for i, o := range offs {
